@@ -74,7 +74,8 @@ class Soap12(Soap11):
         return value, faultstrings
 
     def generate_faultcode(self, element):
-        nsmap = element.nsmap
+        # the prefix the sender chose for the envelope namespace is arbitrary
+        nsmap = {'soap': self.ns_soap_env}
         faultcode = []
         faultcode.append(element.find('soap:Code/soap:Value', namespaces=nsmap).text)
         subcode = element.find('soap:Code/soap:Subcode', namespaces=nsmap)
@@ -141,17 +142,19 @@ class Soap12(Soap11):
         return self.fault_to_parent(ctx, cls, inst, parent, ns)
 
     def fault_from_element(self, ctx, cls, element):
-        nsmap = element.nsmap
+        # the prefix the sender chose for the envelope namespace is arbitrary
+        nsmap = {'soap': self.ns_soap_env}
 
         code = self.generate_faultcode(element)
-        reason = element.find("soap:Reason/soap:Text", namespaces=nsmap).text.strip()
+        reason = (element.find("soap:Reason/soap:Text", namespaces=nsmap).text
+                                                                 or '').strip()
         role = element.find("soap:Role", namespaces=nsmap)
         node = element.find("soap:Node", namespaces=nsmap)
         detail = element.find("soap:Detail", namespaces=nsmap)
         faultactor = ''
         if role is not None:
-            faultactor += role.text.strip()
+            faultactor += (role.text or '').strip()
         if node is not None:
-            faultactor += node.text.strip()
+            faultactor += (node.text or '').strip()
         return cls(faultcode=code, faultstring=reason,
                    faultactor=faultactor, detail=detail)
